@@ -60,7 +60,8 @@ def row_tokens(arr) -> list[str]:
 class PairPot(Calculator):
     """smooth pair potential + weak wells; style 'caching' = standard ASE caching, 'stateless' = recomputes on every request,
     'internal' = keeps a per-atom internal table that must match the atom count (like a neighbour list),
-    'inplace' = standard caching, but array results are written into one persistent buffer (as ASE's EMT does with its forces)"""
+    'inplace' = standard caching, but array results are written into one persistent buffer (as ASE's EMT does with its forces),
+    'lazy' = standard caching, but only the requested properties are computed and added to the results of the current configuration"""
 
     implemented_properties = ["energy", "forces", "stress"]
 
@@ -98,12 +99,29 @@ class PairPot(Calculator):
                 self._fbuf = np.zeros_like(forces)
             self._fbuf[:] = forces
             forces = self._fbuf
+        if self.style == "lazy":
+            self.results["energy"] = self.energy_of(self.atoms)
+            if "forces" in properties:
+                self.results["forces"] = forces
+            if "stress" in properties:
+                self.results["stress"] = 1e-3 * np.array([float(np.sum(self.atoms.positions[:, a] * self.atoms.positions[:, b])) for a, b in ((0, 0), (1, 1), (2, 2), (1, 2), (0, 2), (0, 1))])
+            return
         self.results = {"energy": self.energy_of(self.atoms), "forces": forces, "stress": np.zeros(6)}
 
     def get_property(self, name, atoms=None, allow_calculation=True):
         if self.style == "stateless":
             self.results = {}
         return super().get_property(name, atoms, allow_calculation)
+
+
+def make_calc(style):
+    """'sum': ASE's SumCalculator around the pair potential - a result-caching calculator that derives from BaseCalculator only, not from Calculator"""
+    if style == "lj":
+        return LennardJones(sigma=1.5, epsilon=0.01, rc=4.0)
+    if style == "sum":
+        from ase.calculators.mixing import SumCalculator
+        return SumCalculator([PairPot("caching")])
+    return PairPot(style)
 
 
 class Scripted:
@@ -174,7 +192,7 @@ class Sim:
             # an energy-contributing constraint: atoms.get_potential_energy() includes its term, calc.get_potential_energy(atoms) does not
             atoms.set_constraint(Hookean(a1=0, a2=1, k=2.0, rt=0.5))
         calc = p.get("calc", "caching")
-        atoms.calc = LennardJones(sigma=1.5, epsilon=0.01, rc=4.0) if calc == "lj" else PairPot(calc)
+        atoms.calc = make_calc(calc)
         self.atoms = atoms
         self.vetoes = list(p.get("vetoes", []))
         self.leaves = []
@@ -306,6 +324,10 @@ class Sim:
         trials = []
         probe = p.get("energy_probe", False)
         cur = None
+        if p.get("pre_run_probe"):
+            # the user looks at forces and stress before the run: they are now among the calculator's results for the initial configuration
+            self.atoms.get_forces()
+            self.atoms.get_stress()
         edit = p.get("pre_run_edit")
         if edit:
             # the user prepares the system between construction and the first run
